@@ -1,11 +1,20 @@
-(** Commit of an input session on the full model (no refresh): writing the inputs and the
-    dirty propagation (which stops at firewalls and projections) take a state satisfying
-    [MInv] (outside any window) for the old inputs to a state satisfying it for the new
-    inputs. *)
+(** Commit of an input session on the full model: writing the inputs, re-running the external
+    inputs (refresh) and the dirty propagation (which stops at firewalls and projections) take a
+    state satisfying [MInv] (outside any window) for the old environment to a state satisfying
+    it for the new one. *)
 From QV Require Import Common.Prelude Engine.Model Engine.Core Engine.CoreSpec Engine.CoreInvBase
   Engine.CoreInvSem Engine.CoreInvCommit Engine.Fw Engine.FwBase Engine.FwMono Engine.FwOnce Engine.FwInv
-  Engine.FwCommit Engine.MdlSpec Engine.MdlSem Engine.MdlBase Engine.MdlInv Engine.MdlInvState.
+  Engine.MdlSpec Engine.MdlSem Engine.MdlBase Engine.MdlInv Engine.MdlInvState.
 Open Scope Z_scope.
+
+(** the refresh of the external inputs computed so far *)
+Definition refresh_step : state * list node -> node -> state * list node :=
+  fun '(s, batch) e =>
+    let v := world_get s (nidx e) in
+    let changed := match get_info s e with Some i => negb (i_value i =? v) | None => false end in
+    (set_computed_input (set_log s (e :: s_log s)) e v, if changed then batch ++ [e] else batch).
+Definition xref (s : state) (l : list node) (xe : xenv) : xenv :=
+  fold_left (fun xe e => fun k => if (k =? nidx e)%N then Some (world_get s (nidx e)) else xe k) l xe.
 
 Section Commit.
 Variable p : program.
@@ -14,97 +23,237 @@ Hypothesis Hrk : forall n e d, alookup p n = Some e -> In d (expr_reads e) -> (r
 Hypothesis Hproj : forall n e d, alookup p n = Some e -> nkind n = KProjection -> In d (expr_reads e) ->
   is_fw_or_proj (nkind d) = true.
 
-Lemma MSessInv_init : forall sA inp s, MInv p rk sA [] inp s -> SessInv s (set_ts s (s_ts s + 1)%N) inp [].
+(** what the writes of a session keep, relative to the state [s] before the session *)
+Record MSess (s cur : state) (env' : menv) (batch : list node) : Prop := {
+  ms_bwd : s_bwd cur = s_bwd s;
+  ms_dirty : s_dirty cur = s_dirty s;
+  ms_ts : s_ts cur = (s_ts s + 1)%N;
+  ms_world : s_world cur = s_world s;
+  ms_ext : s_ext cur = s_ext s;
+  ms_other : forall m, ~ leaf m -> get_info cur m = get_info s m;
+  ms_leaf : forall m i, leaf m -> get_info cur m = Some i ->
+     i_fwd i = [] /\ i_obs i = [] /\ i_tfc i = [] /\
+     leaf_val env' m = Some (i_value i) /\ (i_verified i <= s_ts s + 1)%N;
+  ms_keep : forall m i0, leaf m -> get_info s m = Some i0 ->
+     exists i, get_info cur m = Some i /\ (~ In m batch -> i_value i = i_value i0);
+  ms_batch : forall m, In m batch -> leaf m /\
+     exists i, get_info cur m = Some i /\ i_verified i = (s_ts s + 1)%N;
+  ms_W : forall k, get_info cur (ext_node k) = None -> snd env' k = Some (world_get s k);
+}.
+
+Lemma MSess_init : forall sA env s, MInv p rk sA [] env s -> MSess s (set_ts s (s_ts s + 1)%N) env [].
 Proof.
-  intros sA inp s HI.
-  split; try reflexivity.
+  intros sA env s HI. split; try reflexivity.
   - intros m i Hm Hi. change (get_info s m = Some i) in Hi.
-    destruct (mi_kind _ _ _ _ _ _ _ HI m i Hi) as [(K1 & K2 & K3 & K4 & K5)|[K1 _]]; [|rewrite Hm in K1; discriminate].
-    repeat (split; [assumption|]). pose proof (mi_ts _ _ _ _ _ _ _ HI m i Hi). lia.
+    destruct (mi_kind _ _ _ _ _ _ _ HI m i Hi) as [(K1 & K2 & K3 & K4 & K5)|[K1 _]].
+    + repeat (split; [assumption|]). pose proof (mi_ts _ _ _ _ _ _ _ HI m i Hi). lia.
+    + destruct Hm as [Hm|Hm]; rewrite Hm in K1; discriminate.
   - intros m i0 Hm Hi0. exists i0. split; [exact Hi0|reflexivity].
   - intros m [].
+  - intros k Hk. apply (mi_W _ _ _ _ _ _ _ HI). exact Hk.
 Qed.
 
-Lemma sess_fold_log : forall sets cur rs batch cur' rs' batch',
-  fold_left fsess_step sets (cur, rs, batch) = (cur', rs', batch') -> s_log cur' = s_log cur.
+Lemma set_input_we : forall s n v, s_world (set_computed_input s n v) = s_world s /\ s_ext (set_computed_input s n v) = s_ext s.
 Proof.
-  induction sets as [|[v x] r IH]; intros cur rs batch cur' rs' batch' H; cbn [fold_left] in H.
-  - inversion H. reflexivity.
-  - rewrite fsess_step_eq in H. apply IH in H. rewrite H. apply set_input_log.
+  intros. unfold set_computed_input, put_info. cbn [set_nodes s_world s_ext].
+  destruct (get_info s n); [split; [apply (sg_world _ _ (unwire_sbg _ _ _ _))|apply (sg_ext _ _ (unwire_sbg _ _ _ _))]|auto].
+Qed.
+Lemma set_input_nofwd : forall s n v, old_fwd s n = [] ->
+  s_bwd (set_computed_input s n v) = s_bwd s /\ s_dirty (set_computed_input s n v) = s_dirty s.
+Proof.
+  intros s n v H. unfold set_computed_input, old_fwd in *. destruct (get_info s n) as [i|].
+  - unfold unwire. rewrite H. cbn. auto.
+  - cbn. auto.
 Qed.
 
-Lemma MInv_commit : forall sA inp s sets fuel s1 rs batch s4,
-  MInv p rk sA [] inp s -> s_log s = [] ->
-  fold_left fsess_step sets (set_ts s (s_ts s + 1)%N, [], []) = (s1, rs, batch) ->
-  propagate fuel (set_visited (set_stat s1 0%N) []) batch = Ok s4 ->
-  MInv p rk s4 [] (fold_left (fun a '(i, v) => input_set a i v) sets inp) s4.
+(** one write of a leaf *)
+Lemma MSess_step : forall s cur env1 env2 batch n x l,
+  MSess s cur env1 batch -> leaf n ->
+  (forall m, leaf m -> m <> n -> leaf_val env2 m = leaf_val env1 m) ->
+  leaf_val env2 n = Some x ->
+  (forall k, ext_node k <> n -> snd env2 k = snd env1 k) ->
+  MSess s (set_computed_input (set_log cur l) n x) env2
+        (if match get_info cur n with Some i => negb (i_value i =? x) | None => false end then batch ++ [n] else batch).
 Proof.
-  intros sA inp s sets fuel s1 rs batch s4 HI Hlog Hfold Hprop.
-  set (inp' := fold_left (fun a '(i, v) => input_set a i v) sets inp).
-  pose proof (MSessInv_init sA inp s HI) as HS0.
-  pose proof (sess_fold_inv p rk Hrk _ _ _ _ _ _ _ _ _ HS0 Hfold) as HS. fold inp' in HS.
-  destruct HS as [A B C D E F G].
+  intros s cur env1 env2 batch n x l [A B C Dw Dx D E F G W] Hn He1 He2 He3.
+  set (cur0 := set_log cur l).
+  set (chg := match get_info cur n with Some i => negb (i_value i =? x) | None => false end).
+  assert (Hof : old_fwd cur0 n = []).
+  { unfold old_fwd. change (get_info cur0 n) with (get_info cur n). destruct (get_info cur n) as [i|] eqn:Ei; [|reflexivity].
+    destruct (E n i Hn Ei) as (K & _). rewrite K. reflexivity. }
+  destruct (set_input_nofwd cur0 n x Hof) as [K1 K2]. destruct (set_input_we cur0 n x) as [K3 K4].
+  split.
+  - rewrite K1. exact A.
+  - rewrite K2. exact B.
+  - rewrite set_input_ts. exact C.
+  - rewrite K3. exact Dw.
+  - rewrite K4. exact Dx.
+  - intros m Hm. rewrite set_input_get. destruct (node_eqb_spec n m) as [<-|Hne]; [contradiction|]. apply D. exact Hm.
+  - intros m i Hm Hi. rewrite set_input_get in Hi. destruct (node_eqb_spec n m) as [<-|Hne].
+    + inversion Hi. subst i. cbn [i_fwd i_obs i_tfc i_value i_verified]. repeat (split; [reflexivity|]).
+      split; [exact He2|]. change (s_ts cur0) with (s_ts cur). rewrite C. lia.
+    + destruct (E m i Hm Hi) as (E1 & E2 & E3 & E4 & E5). repeat (split; [assumption|]). split; [|exact E5].
+      rewrite He1; auto.
+  - intros m i0 Hm Hi0. destruct (F m i0 Hm Hi0) as [i [Hi Hv]]. rewrite set_input_get.
+    destruct (node_eqb_spec n m) as [<-|Hne].
+    + eexists. split; [reflexivity|]. cbn [i_value]. intro Hnb. unfold chg in Hnb. rewrite Hi in Hnb.
+      destruct (i_value i =? x) eqn:Ex; cbn [negb] in Hnb.
+      * apply Z.eqb_eq in Ex. rewrite <- Ex. apply Hv. exact Hnb.
+      * exfalso. apply Hnb. apply in_or_app. right. left. reflexivity.
+    + exists i. split; [exact Hi|]. intro Hnb. apply Hv. intro K. apply Hnb.
+      destruct chg; auto. apply in_or_app. auto.
+  - intros m Hm.
+    assert (Hm' : In m batch \/ m = n).
+    { destruct chg; auto. apply in_app_or in Hm. destruct Hm as [Hm|[<-|[]]]; auto. }
+    destruct Hm' as [Hm'| ->].
+    + destruct (G m Hm') as [Gk [i [Gi Gv]]]. split; [exact Gk|]. rewrite set_input_get.
+      destruct (node_eqb_spec n m) as [<-|Hne].
+      * eexists. split; [reflexivity|]. cbn [i_verified]. exact C.
+      * exists i. auto.
+    + split; [exact Hn|]. rewrite set_input_get, node_eqb_refl. eexists. split; [reflexivity|].
+      cbn [i_verified]. exact C.
+  - intros k Hk. rewrite set_input_get in Hk. destruct (node_eqb_spec n (ext_node k)) as [Ek|Hne]; [discriminate|].
+    rewrite He3; [|intro K; apply Hne; symmetry; exact K]. apply W. exact Hk.
+Qed.
+
+Lemma leaf_val_input_set : forall env v x m, leaf m -> m <> mkNode KInput v ->
+  leaf_val (input_set (fst env) v x, snd env) m = leaf_val env m.
+Proof.
+  intros env v x m Hm Hne. unfold leaf_val. cbn [fst snd]. destruct (nkind m) eqn:K; try reflexivity.
+  rewrite input_get_set. destruct (N.eqb_spec (nidx m) v) as [Ev|Ev]; [|reflexivity].
+  exfalso. apply Hne. rewrite (input_node_eta m K). congruence.
+Qed.
+
+Lemma sess_fold_MSess : forall s sets cur env1 rs batch cur' rs' batch',
+  MSess s cur env1 batch ->
+  fold_left fsess_step sets (cur, rs, batch) = (cur', rs', batch') ->
+  MSess s cur' (fold_left (fun a '(i, v) => input_set a i v) sets (fst env1), snd env1) batch'.
+Proof.
+  intros s. induction sets as [|[v x] r IH]; intros cur env1 rs batch cur' rs' batch' HS H; cbn [fold_left] in *.
+  - inversion H. subst. destruct env1. exact HS.
+  - rewrite fsess_step_eq in H.
+    assert (HS' : MSess s (set_computed_input cur (mkNode KInput v) x) (input_set (fst env1) v x, snd env1)
+                    (match (match get_info cur (mkNode KInput v) with
+                            | None => SFresh
+                            | Some i => if i_value i =? x then SUnchanged else SUpdated end) with
+                     | SUpdated => batch ++ [mkNode KInput v] | _ => batch end)).
+    { pose proof (MSess_step s cur env1 (input_set (fst env1) v x, snd env1) batch (mkNode KInput v) x (s_log cur) HS) as Q.
+      assert (Ec : set_log cur (s_log cur) = cur) by (destruct cur; reflexivity). rewrite Ec in Q.
+      assert (Eb : (if match get_info cur (mkNode KInput v) with Some i => negb (i_value i =? x) | None => false end
+                    then batch ++ [mkNode KInput v] else batch) =
+                   match (match get_info cur (mkNode KInput v) with
+                          | None => SFresh
+                          | Some i => if i_value i =? x then SUnchanged else SUpdated end) with
+                   | SUpdated => batch ++ [mkNode KInput v] | _ => batch end).
+      { destruct (get_info cur (mkNode KInput v)) as [i|]; [|reflexivity]. destruct (i_value i =? x); reflexivity. }
+      rewrite <- Eb. apply Q.
+      - left. reflexivity.
+      - intros m Hm Hne. apply leaf_val_input_set; assumption.
+      - unfold leaf_val. cbn [nkind nidx fst]. rewrite input_get_set, N.eqb_refl. reflexivity.
+      - intros k _. reflexivity. }
+    specialize (IH _ _ _ _ _ _ _ HS' H). cbn [fst snd] in IH. exact IH.
+Qed.
+
+Lemma refresh_fold_MSess : forall s l cur env1 batch cur' batch',
+  MSess s cur env1 batch -> (forall e, In e l -> nkind e = KExternal) ->
+  fold_left refresh_step l (cur, batch) = (cur', batch') ->
+  MSess s cur' (fst env1, xref s l (snd env1)) batch'.
+Proof.
+  intros s. induction l as [|e r IH]; intros cur env1 batch cur' batch' HS Hk H; cbn [fold_left] in *.
+  - inversion H. subst. destruct env1. exact HS.
+  - unfold refresh_step at 2 in H. cbv zeta in H.
+    assert (Ke : nkind e = KExternal) by (apply Hk; left; reflexivity).
+    assert (Ew : world_get cur (nidx e) = world_get s (nidx e)) by (unfold world_get; rewrite (ms_world _ _ _ _ HS); reflexivity).
+    set (env2 := (fst env1, (fun k => if (k =? nidx e)%N then Some (world_get s (nidx e)) else snd env1 k) : xenv)).
+    assert (HS' : MSess s (set_computed_input (set_log cur (e :: s_log cur)) e (world_get cur (nidx e))) env2
+                    (if match get_info cur e with Some i => negb (i_value i =? world_get cur (nidx e)) | None => false end
+                     then batch ++ [e] else batch)).
+    { apply (MSess_step s cur env1 env2 batch e (world_get cur (nidx e)) (e :: s_log cur) HS).
+      - right. exact Ke.
+      - intros m Hm Hne. unfold leaf_val, env2. cbn [fst snd]. destruct (nkind m) eqn:Km; try reflexivity.
+        destruct (N.eqb_spec (nidx m) (nidx e)) as [Ev|Ev]; [|reflexivity].
+        exfalso. apply Hne. rewrite (node_ext_eta m Km), (node_ext_eta e Ke). congruence.
+      - unfold leaf_val, env2. rewrite Ke. cbn [snd]. rewrite N.eqb_refl, Ew. reflexivity.
+      - intros k Hne. unfold env2. cbn [snd]. destruct (N.eqb_spec k (nidx e)) as [Ev|Ev]; [|reflexivity].
+        exfalso. apply Hne. rewrite (node_ext_eta e Ke). congruence. }
+    specialize (IH _ _ _ _ _ HS' (fun x Hx => Hk x (or_intror Hx)) H). cbn [fst snd env2] in IH. exact IH.
+Qed.
+
+(** the dirty propagation from the changed leaves *)
+Lemma MInv_of_MSess : forall sA env env' s s2 batch fuel s4,
+  MInv p rk sA [] env s -> MSess s s2 env' batch ->
+  propagate fuel (set_visited (set_stat s2 0%N) []) batch = Ok s4 ->
+  MInv p rk (set_log s4 []) [] env' (set_log s4 []).
+Proof.
+  intros sA env env' s s1 batch fuel s40 HI HS Hprop.
+  destruct HS as [A B C Dw Dx D E F G W].
   set (s3 := set_visited (set_stat s1 0%N) []) in *.
   assert (HP0 : PVp push_p (fun _ => False) s3 batch) by (intros x []).
   destruct (propagate_spec_p _ _ _ _ _ Hprop HP0) as (N1 & N2 & N3 & N4 & N5 & N6 & _ & N8 & N9 & N10).
-  cbn [s3 set_visited set_stat s_nodes s_bwd s_ts s_log] in N1, N2, N3, N4.
-  assert (Hget : forall m, get_info s4 m = get_info s1 m) by (intro m; unfold get_info; rewrite N1; reflexivity).
-  assert (Hcal : forall y, callers_of s4 y = callers_of s y) by (intro y; unfold callers_of; rewrite N2, A; reflexivity).
-  assert (Hts : s_ts s4 = (s_ts s + 1)%N) by congruence.
+  destruct (propagate_we _ _ _ _ Hprop) as [Nw Nx].
+  cbn [s3 set_visited set_stat s_nodes s_bwd s_ts s_log s_world s_ext] in N1, N2, N3, N4, Nw, Nx.
+  set (s4 := set_log s40 []).
+  assert (Hget : forall m, get_info s4 m = get_info s1 m) by (intro m; unfold s4, get_info; cbn [set_log s_nodes]; rewrite N1; reflexivity).
+  assert (Hcal : forall y, callers_of s4 y = callers_of s y) by (intro y; unfold s4, callers_of; cbn [set_log s_bwd]; rewrite N2, A; reflexivity).
+  assert (Hts : s_ts s4 = (s_ts s + 1)%N) by (unfold s4; cbn [set_log s_ts]; congruence).
   assert (Hd_mono : forall a b, sdirty s a b -> sdirty s4 a b).
-  { intros a b K. apply N5. unfold sdirty in *. cbn. rewrite B. exact K. }
+  { intros a b K. unfold s4. change (sdirty s40 a b). apply N5. unfold sdirty in *. cbn. rewrite B. exact K. }
   assert (Hd_new : forall a b, sdirty s4 a b -> sdirty s a b \/ In a (callers_of s b)).
-  { intros a b K. apply N6 in K. destruct K as [K|K].
+  { intros a b K. change (sdirty s40 a b) in K. apply N6 in K. destruct K as [K|K].
     - left. unfold sdirty in *. cbn in K. rewrite B in K. exact K.
     - right. unfold callers_of in *. cbn in K. rewrite A in K. exact K. }
-  (* a node expanded by the session's propagation is an input or neither firewall nor projection *)
+  assert (leaf_dec : forall m, leaf m \/ ~ leaf m).
+  { intro m. unfold leaf. destruct (nkind m); try (left; auto; fail); right; intros [K|K]; discriminate. }
+  assert (leaf_nfp : forall m, leaf m -> is_fw_or_proj (nkind m) = false).
+  { intros m [K|K]; rewrite K; reflexivity. }
+  (* a node expanded by the session's propagation is a leaf or neither firewall nor projection *)
   assert (Hvkind : forall x, In x (s_visited s4) -> is_fw_or_proj (nkind x) = false).
   { intros x Hx. destruct (N10 x Hx) as [[]|[K|[K _]]].
-    - destruct (G x K) as [Kx _]. rewrite Kx. reflexivity.
+    - apply leaf_nfp. apply (G x K).
     - apply negb_true_iff. exact K. }
   (* expanded nodes: all edges into them are dirty, their non-firewall callers are expanded *)
   assert (HV : forall x, In x (s_visited s4) -> forall c, In c (callers_of s x) ->
                  sdirty s4 c x /\ (thru c -> In c (s_visited s4))).
-  { intros x Hx c Hc. destruct (N9 x Hx) as [[]|K]. assert (Hc4 : In c (callers_of s4 x)) by (rewrite Hcal; exact Hc).
+  { intros x Hx c Hc. destruct (N9 x Hx) as [[]|K].
+    assert (Hc4 : In c (callers_of s40 x)) by (unfold callers_of; rewrite N2; cbn; rewrite A; exact Hc).
     destruct (K c Hc4) as [K1 K2]. split; [exact K1|]. intro Ht.
     assert (Hcp : push_p c = true).
     { apply push_p_nonfw. unfold nonfw. destruct (nkind c) eqn:Kc; try reflexivity.
       - exfalso. apply Ht. exact Kc.
       - exfalso. eapply (no_proj_caller p rk Hproj _ _ _ _ _ x c HI (Hvkind x Hx) Hc). exact Kc. }
     destruct (K2 Hcp) as [K3|[]]. exact K3. }
-  (* stored entries of s4: inputs written or kept, other nodes untouched *)
+  (* stored entries of s4: leaves written or kept, other nodes untouched *)
   assert (Hcases : forall m i, get_info s4 m = Some i ->
-            (nkind m = KInput /\ i_fwd i = [] /\ i_obs i = [] /\ i_tfc i = [] /\
-             input_get inp' (nidx m) = Some (i_value i) /\ (i_verified i <= s_ts s + 1)%N)
-            \/ (nkind m <> KInput /\ get_info s m = Some i)).
-  { intros m i Hi. rewrite Hget in Hi. destruct (kind_eqb (nkind m) KInput) eqn:Ek.
-    - apply kind_eqb_eq in Ek. left. split; [exact Ek|]. apply (E m i Ek Hi).
-    - right. assert (nkind m <> KInput) by (intro K; apply kind_eqb_eq in K; congruence).
-      split; [assumption|]. rewrite <- D; assumption. }
+            (leaf m /\ i_fwd i = [] /\ i_obs i = [] /\ i_tfc i = [] /\
+             leaf_val env' m = Some (i_value i) /\ (i_verified i <= s_ts s + 1)%N)
+            \/ (~ leaf m /\ get_info s m = Some i)).
+  { intros m i Hi. rewrite Hget in Hi. destruct (leaf_dec m) as [Ek|Ek].
+    - left. split; [exact Ek|]. apply (E m i Ek Hi).
+    - right. split; [exact Ek|]. rewrite <- D; assumption. }
   assert (Hfwd : forall m, old_fwd s4 m = old_fwd s m).
   { intro m. unfold old_fwd. destruct (get_info s4 m) as [i|] eqn:Hi.
     - destruct (Hcases m i Hi) as [(K & K2 & _)|[_ K]].
-      + rewrite K2. cbn. symmetry. apply (minput_no_fwd _ _ _ _ _ _ _ _ HI K).
+      + rewrite K2. cbn. symmetry. apply (mleaf_no_fwd _ _ _ _ _ _ _ _ HI K).
       + rewrite K. reflexivity.
     - destruct (get_info s m) as [i0|] eqn:Hi0; [|reflexivity]. exfalso.
-      rewrite Hget in Hi. destruct (kind_eqb (nkind m) KInput) eqn:Ek.
-      + apply kind_eqb_eq in Ek. destruct (F m i0 Ek Hi0) as [i [K _]]. congruence.
-      + rewrite D in Hi; [congruence|]. intro K. apply kind_eqb_eq in K. congruence. }
-  assert (Hnoninput : forall m d, In d (old_fwd s m) -> nkind m <> KInput).
-  { intros m d Hd K. rewrite (minput_no_fwd _ _ _ _ _ _ _ _ HI K) in Hd. destruct Hd. }
-  assert (Hsame : forall m, nkind m <> KInput -> get_info s4 m = get_info s m).
+      rewrite Hget in Hi. destruct (leaf_dec m) as [Ek|Ek].
+      + destruct (F m i0 Ek Hi0) as [i [K _]]. congruence.
+      + rewrite D in Hi; [congruence|exact Ek]. }
+  assert (Hnonleaf : forall m d, In d (old_fwd s m) -> ~ leaf m).
+  { intros m d Hd K. rewrite (mleaf_no_fwd _ _ _ _ _ _ _ _ HI K) in Hd. destruct Hd. }
+  assert (Hsame : forall m, ~ leaf m -> get_info s4 m = get_info s m).
   { intros m K. rewrite Hget. apply D. exact K. }
   assert (Hstored : forall m, get_info s m <> None -> get_info s4 m <> None).
   { intros m Hm. rewrite Hget. destruct (get_info s m) as [i0|] eqn:Ei0; [|congruence].
-    destruct (kind_eqb (nkind m) KInput) eqn:Ek.
-    - apply kind_eqb_eq in Ek. destruct (F m i0 Ek Ei0) as [i [Hi _]]. congruence.
-    - rewrite D; [congruence|]. intro K. apply kind_eqb_eq in K. congruence. }
+    destruct (leaf_dec m) as [Ek|Ek].
+    - destruct (F m i0 Ek Ei0) as [i [Hi _]]. congruence.
+    - rewrite D; [congruence|exact Ek]. }
   assert (Hpath : forall a b, tpath s4 a b <-> tpath s a b).
   { intros a b. split; intro K.
     - eapply tpath_frame_inv; [exact K|]. intros; apply Hfwd.
     - eapply tpath_frame; [exact K|]. intros; apply Hfwd. }
-  (* an input whose value changed was expanded *)
-  assert (Hchanged : forall z j0 j, nkind z = KInput -> get_info s z = Some j0 -> get_info s4 z = Some j ->
+  (* a leaf whose value changed was expanded *)
+  assert (Hchanged : forall z j0 j, leaf z -> get_info s z = Some j0 -> get_info s4 z = Some j ->
              i_value j <> i_value j0 -> In z (s_visited s4)).
   { intros z j0 j Kz H0 H4 Hne. apply N8. destruct (F z j0 Kz H0) as [j' [Hj' Hv]].
     rewrite Hget in H4. assert (j' = j) by congruence. subst j'.
@@ -112,19 +261,19 @@ Proof.
   (* an edge whose target saw a change is dirty *)
   assert (Hedge : forall y z, In z (old_fwd s y) -> edgeok s y z -> ~ In z (s_visited s4) -> edgeok s4 y z).
   { intros y z Hz (iy & jz & v & t & A1 & A2 & A3 & A4 & A5) Hnv.
-    assert (Ky : nkind y <> KInput) by (eapply Hnoninput; eauto).
-    destruct (kind_eqb (nkind z) KInput) eqn:Ek.
-    - apply kind_eqb_eq in Ek. destruct (F z jz Ek A2) as [j [Hj _]].
+    assert (Ky : ~ leaf y) by (eapply Hnonleaf; eauto).
+    destruct (leaf_dec z) as [Ek|Ek].
+    - destruct (F z jz Ek A2) as [j [Hj _]].
       assert (Hj4 : get_info s4 z = Some j) by (rewrite Hget; exact Hj).
       destruct (Z.eq_dec (i_value j) (i_value jz)) as [Ev|Ev].
       + exists iy, j, v, t. split; [rewrite (Hsame y Ky); exact A1|]. split; [exact Hj4|].
         split; [exact A3|]. split; [congruence|]. intros Kn x.
         destruct (E z j Ek Hj) as (_ & _ & T & _). rewrite T.
-        destruct (mi_kind _ _ _ _ _ _ _ HI z jz A2) as [(_ & _ & _ & T0 & _)|(K & _)]; [|rewrite Ek in K; discriminate].
-        rewrite <- (A5 Kn x), T0. reflexivity.
+        destruct (mi_kind _ _ _ _ _ _ _ HI z jz A2) as [(_ & _ & _ & T0 & _)|(K & _)].
+        * rewrite <- (A5 Kn x), T0. reflexivity.
+        * destruct Ek as [Ek|Ek]; rewrite Ek in K; discriminate.
       + exfalso. apply Hnv. eapply Hchanged; eauto.
-    - assert (Kz : nkind z <> KInput) by (intro K; apply kind_eqb_eq in K; congruence).
-      exists iy, jz, v, t. rewrite (Hsame y Ky), (Hsame z Kz). auto. }
+    - exists iy, jz, v, t. rewrite (Hsame y Ky), (Hsame z Ek). auto. }
   (* the non-firewall nodes above an expanded node are expanded *)
   assert (Hup : forall d y, tpath s d y -> thru d -> In y (s_visited s4) -> In d (s_visited s4)).
   { intros d y Hp. induction Hp as [d|d d' y Hd Hn Hp IH]; intros Hnd Hy; [exact Hy|].
@@ -135,17 +284,17 @@ Proof.
     assert (Hny : thru y).
     { destruct (tpath_last _ _ _ Hy) as [<-|[w (_ & _ & K)]]; assumption. }
     apply (Hup d y Hy Hnd). apply (proj2 (HV z Kz y (proj2 (mi_bwd _ _ _ _ _ _ _ HI y z) Hz))). exact Hny. }
-  assert (Hnotver : forall m i, get_info s4 m = Some i -> i_verified i = s_ts s4 -> nkind m = KInput).
+  assert (Hnotver : forall m i, get_info s4 m = Some i -> i_verified i = s_ts s4 -> leaf m).
   { intros m i Hi Hv. destruct (Hcases m i Hi) as [(K & _)|[_ K]]; [exact K|].
     pose proof (mi_ts _ _ _ _ _ _ _ HI m i K). lia. }
-  assert (Hinput_leaf : forall m, nkind m = KInput -> forall x, tpath s m x -> old_fwd s x = []).
-  { intros m K x Hx. pose proof (minput_no_fwd _ _ _ _ _ _ _ _ HI K) as E0.
+  assert (Hleaf_end : forall m, leaf m -> forall x, tpath s m x -> old_fwd s x = []).
+  { intros m K x Hx. pose proof (mleaf_no_fwd _ _ _ _ _ _ _ _ HI K) as E0.
     inversion Hx; subst; [exact E0|].
     match goal with H : In _ (old_fwd s m) |- _ => rewrite E0 in H; destruct H end. }
   split.
   - intros m i Hi. destruct (Hcases m i Hi) as [(K1 & K2 & K3 & K4 & K5 & _)|[K1 K2]].
     + left. auto.
-    + destruct (mi_kind _ _ _ _ _ _ _ HI m i K2) as [(K & _)|K]; [congruence|]. right. exact K.
+    + destruct (mi_kind _ _ _ _ _ _ _ HI m i K2) as [(K & _)|K]; [contradiction|]. right. exact K.
   - intros m i d Hi Hdi. destruct (Hcases m i Hi) as [(_ & K & _)|[_ K]].
     + rewrite K in Hdi. destruct Hdi.
     + eapply mi_obs; eauto.
@@ -180,43 +329,49 @@ Proof.
     split; [apply Hedge; assumption|]. intro Hn. apply MGood_GoodX. apply HGood; auto. apply MGoodX_nil. auto.
   - (* mi_G *)
     intros m [i [Hi Hv]]. pose proof (Hnotver m i Hi Hv) as K.
-    intros x Hx d Hd. apply Hpath in Hx. rewrite Hfwd in Hd. rewrite (Hinput_leaf m K x Hx) in Hd. destruct Hd.
+    intros x Hx d Hd. apply Hpath in Hx. rewrite Hfwd in Hd. rewrite (Hleaf_end m K x Hx) in Hd. destruct Hd.
   - (* mi_T *)
     intros m F0 [i [Hi Hv]] [x (P1 & P2 & _)]. pose proof (Hnotver m i Hi Hv) as K. exfalso.
-    apply Hpath in P1. rewrite Hfwd in P2. rewrite (Hinput_leaf m K x P1) in P2. destruct P2.
+    apply Hpath in P1. rewrite Hfwd in P2. rewrite (Hleaf_end m K x P1) in P2. destruct P2.
   - (* mi_V *)
     intros m i Hi Hv. pose proof (Hnotver m i Hi Hv) as K.
     destruct (Hcases m i Hi) as [(_ & _ & _ & _ & K5 & _)|[K1 _]]; [|contradiction].
-    apply MSpecI_input; assumption.
+    apply MSpecI_leaf; assumption.
   - (* mi_PV *)
     intros x Hx. right. destruct (N10 x Hx) as [[]|[K|[_ [y K]]]].
     + left. destruct (G x K) as [_ [i [Gi Gv]]]. exists i. rewrite Hget, Hts. auto.
     + right. split.
       * cbn [s3 set_visited set_stat callers_of s_bwd] in K.
         assert (K' : In x (callers_of s y)) by (unfold callers_of in *; cbn in K; rewrite A in K; exact K).
-        apply (mi_bwd _ _ _ _ _ _ _ HI) in K'. eapply Hnoninput; eauto.
+        apply (mi_bwd _ _ _ _ _ _ _ HI) in K'. intro Ki. apply (Hnonleaf x y K'). left. exact Ki.
       * intros c Hc. rewrite Hcal in Hc. apply HV; assumption.
   - intros x [].
-  - intros m Hm. exfalso. rewrite N4, (sess_fold_log _ _ _ _ _ _ _ Hfold) in Hm. cbn [set_ts s_log] in Hm. rewrite Hlog in Hm. destruct Hm.
+  - intros m [].
   - intro m. right. reflexivity.
   - intros m i Hi. right. exists i. split; [exact Hi|]. intros. reflexivity.
+  - (* mi_W *)
+    intros k Hk. rewrite Hget in Hk. unfold s4, world_get. cbn [set_log s_world]. rewrite Nw, Dw. apply W. exact Hk.
+  - (* mi_ext *)
+    intros e He. unfold s4 in He. cbn [set_log s_ext] in He. rewrite Nx, Dx in He. eapply mi_ext; eauto.
 Qed.
 
 (** the entries of the queries are not touched by a session *)
-Lemma commit_other : forall s sets fuel s1 rs batch s4 m,
-  fold_left fsess_step sets (set_ts s (s_ts s + 1)%N, [], []) = (s1, rs, batch) ->
-  propagate fuel (set_visited (set_stat s1 0%N) []) batch = Ok s4 ->
-  nkind m <> KInput -> get_info s4 m = get_info s m.
+Lemma MSess_other : forall s s2 env' batch fuel s4 m, MSess s s2 env' batch ->
+  propagate fuel (set_visited (set_stat s2 0%N) []) batch = Ok s4 -> ~ leaf m -> get_info s4 m = get_info s m.
 Proof.
-  intros s sets fuel s1 rs batch s4 m Hfold Hprop Hk.
-  apply propagate_same in Hprop. destruct Hprop as (N1 & _).
-  assert (E : get_info s4 m = get_info s1 m) by (unfold get_info; rewrite N1; reflexivity). rewrite E. clear E N1.
-  assert (G : forall sets cur rs batch cur' rs' batch',
-            fold_left fsess_step sets (cur, rs, batch) = (cur', rs', batch') -> get_info cur' m = get_info cur m).
-  { clear Hfold. induction sets0 as [|[v x] r IH]; intros cur rs0 batch0 cur' rs' batch' H; cbn [fold_left] in H.
-    - inversion H. reflexivity.
-    - rewrite fsess_step_eq in H. apply IH in H. rewrite H. rewrite set_input_get.
-      destruct (node_eqb_spec (mkNode KInput v) m) as [<-|Hne]; [exfalso; apply Hk; reflexivity|reflexivity]. }
-  rewrite (G _ _ _ _ _ _ _ Hfold). reflexivity.
+  intros s s2 env' batch fuel s4 m HS Hprop Hk. apply propagate_same in Hprop. destruct Hprop as (N1 & _).
+  unfold get_info at 1. rewrite N1. apply (ms_other _ _ _ _ HS). exact Hk.
+Qed.
+Lemma MSess_stored : forall s s2 env' batch fuel s4 m, MSess s s2 env' batch ->
+  propagate fuel (set_visited (set_stat s2 0%N) []) batch = Ok s4 -> get_info s m <> None -> get_info s4 m <> None.
+Proof.
+  intros s s2 env' batch fuel s4 m HS Hprop Hm. apply propagate_same in Hprop. destruct Hprop as (N1 & _).
+  unfold get_info at 1. rewrite N1. change (get_info s2 m <> None).
+  destruct (get_info s m) as [i0|] eqn:Ei; [|congruence].
+  assert (Hd : leaf m \/ ~ leaf m).
+  { unfold leaf. destruct (nkind m); try (left; auto; fail); right; intros [K|K]; discriminate. }
+  destruct Hd as [K|K].
+  - destruct (ms_keep _ _ _ _ HS m i0 K Ei) as [i [Hi _]]. congruence.
+  - rewrite (ms_other _ _ _ _ HS m K). congruence.
 Qed.
 End Commit.
